@@ -3,7 +3,8 @@
 use super::Mesh;
 use crate::common::indices::chained_indices;
 use crate::{Curve3, Iso3, Plane3, Point3, SurfacePoint3};
-use parry3d_f64::query::{IntersectResult, PointProjection, PointQueryWithLocation, SplitResult};
+use parry3d_f64::query::{PointProjection, PointQueryWithLocation, SplitResult};
+use std::collections::HashMap;
 use parry3d_f64::shape::TrianglePointLocation;
 use std::f64::consts::PI;
 
@@ -151,23 +152,140 @@ impl Mesh {
     pub fn section(&self, plane: &Plane3, tol: Option<f64>) -> crate::Result<Vec<Curve3>> {
         let tol = tol.unwrap_or(1.0e-6);
         let mut collected = Vec::new();
-        let result = self
-            .shape
-            .intersection_with_local_plane(&plane.normal, plane.d, 1.0e-6);
 
-        if let IntersectResult::Intersect(pline) = result {
-            let chains = chained_indices(pline.indices());
-            for chain in chains.iter() {
-                let points = chain
-                    .iter()
-                    .map(|&i| pline.vertices()[i as usize])
-                    .collect::<Vec<_>>();
-                if let Ok(curve) = Curve3::from_points(&points, tol) {
-                    collected.push(curve);
-                }
+        let (points, pairs) = self.plane_crossing_segments(plane, 1.0e-6);
+        let chains = chained_indices(&pairs);
+        for chain in chains.iter() {
+            let chain_points = chain
+                .iter()
+                .map(|&i| points[i as usize])
+                .collect::<Vec<_>>();
+            if let Ok(curve) = Curve3::from_points(&chain_points, tol) {
+                collected.push(curve);
             }
         }
 
         Ok(collected)
+    }
+
+    /// Computes the segments in which the faces of the mesh cross a plane. Returns the section
+    /// points (each crossed edge and each vertex lying on the plane contributes one point, shared
+    /// by the faces around it) and one index pair per crossed face, directed along
+    /// `plane.normal x face normal` so that the pairs of a consistently wound mesh chain head to
+    /// tail. Open meshes simply produce chains with free ends.
+    ///
+    /// A vertex closer to the plane than `eps` is treated as lying on it.
+    fn plane_crossing_segments(&self, plane: &Plane3, eps: f64) -> (Vec<Point3>, Vec<[u32; 2]>) {
+        #[derive(Hash, PartialEq, Eq, Clone, Copy)]
+        enum Key {
+            Vertex(u32),
+            Edge(u32, u32),
+        }
+
+        let vertices = self.vertices();
+        let dist: Vec<f64> = vertices
+            .iter()
+            .map(|v| {
+                let d = plane.signed_distance_to_point(v);
+                if d.abs() <= eps {
+                    0.0
+                } else {
+                    d
+                }
+            })
+            .collect();
+
+        let mut keys: HashMap<Key, u32> = HashMap::new();
+        let mut points: Vec<Point3> = Vec::new();
+        let mut pairs: Vec<[u32; 2]> = Vec::new();
+        // An edge lying in the plane is part of the section only where the surface passes through
+        // the plane there, i.e. when it has a face above and a face below: find those first
+        let mut in_plane_edges: HashMap<(u32, u32), (bool, bool)> = HashMap::new();
+        for face in self.faces().iter() {
+            let d = [
+                dist[face[0] as usize],
+                dist[face[1] as usize],
+                dist[face[2] as usize],
+            ];
+            if d.iter().filter(|x| **x == 0.0).count() == 2 {
+                let on: Vec<u32> = (0..3).filter(|&k| d[k] == 0.0).map(|k| face[k]).collect();
+                let side = in_plane_edges
+                    .entry((on[0].min(on[1]), on[0].max(on[1])))
+                    .or_insert((false, false));
+                side.0 |= d.iter().any(|x| *x > 0.0);
+                side.1 |= d.iter().any(|x| *x < 0.0);
+            }
+        }
+
+        for face in self.faces().iter() {
+            let d = [
+                dist[face[0] as usize],
+                dist[face[1] as usize],
+                dist[face[2] as usize],
+            ];
+            let zeros = d.iter().filter(|x| **x == 0.0).count();
+            let above = d.iter().filter(|x| **x > 0.0).count();
+            let below = d.iter().filter(|x| **x < 0.0).count();
+            if zeros == 3 || (zeros < 2 && (above == 0 || below == 0)) {
+                // Lies in the plane, misses it, or only touches it at one vertex
+                continue;
+            }
+            if zeros == 2 {
+                // One edge of the face lies in the plane: it is taken once, from the face above
+                if above == 0 {
+                    continue;
+                }
+                let on: Vec<u32> = (0..3).filter(|&k| d[k] == 0.0).map(|k| face[k]).collect();
+                if in_plane_edges[&(on[0].min(on[1]), on[0].max(on[1]))] != (true, true) {
+                    continue;
+                }
+            }
+
+            let mut ends: Vec<Key> = Vec::with_capacity(2);
+            for k in 0..3 {
+                let (a, b) = (face[k], face[(k + 1) % 3]);
+                let (da, db) = (d[k], d[(k + 1) % 3]);
+                if da == 0.0 {
+                    ends.push(Key::Vertex(a));
+                } else if db != 0.0 && (da < 0.0) != (db < 0.0) {
+                    ends.push(Key::Edge(a.min(b), a.max(b)));
+                }
+            }
+            if ends.len() != 2 {
+                continue;
+            }
+
+            let mut ids = [0u32; 2];
+            for (slot, key) in ends.iter().enumerate() {
+                ids[slot] = *keys.entry(*key).or_insert_with(|| {
+                    let p = match key {
+                        Key::Vertex(i) => vertices[*i as usize],
+                        Key::Edge(i, j) => {
+                            let (pi, pj) = (vertices[*i as usize], vertices[*j as usize]);
+                            let (di, dj) = (dist[*i as usize], dist[*j as usize]);
+                            pi + (pj - pi) * (di / (di - dj))
+                        }
+                    };
+                    points.push(p);
+                    (points.len() - 1) as u32
+                });
+            }
+
+            // Direct the segment along plane normal x face normal
+            let (p0, p1, p2) = (
+                vertices[face[0] as usize],
+                vertices[face[1] as usize],
+                vertices[face[2] as usize],
+            );
+            let face_normal = (p1 - p0).cross(&(p2 - p0));
+            let along = plane.normal.cross(&face_normal);
+            let segment = points[ids[1] as usize] - points[ids[0] as usize];
+            if segment.dot(&along) < 0.0 {
+                ids.swap(0, 1);
+            }
+            pairs.push(ids);
+        }
+
+        (points, pairs)
     }
 }
